@@ -15,6 +15,7 @@ fn main() {
     let n: usize = args[2].parse().unwrap();
     std::panic::set_hook(Box::new(|_| {}));
     let mut rng = Rng::new(seed);
+    let (mut skipped_err, mut skipped_unsat) = (0usize, 0usize);
     for i in 0..n {
         let mut sys = match i % 4 {
             0 => gen_planted(&mut rng, 15, 1e-3, &SHAPES),
@@ -86,6 +87,7 @@ fn main() {
                 if std::env::var("DUMP_C05_DEBUG").is_ok() {
                     eprintln!("skip {i}: error {:?}", e.error);
                 }
+                skipped_err += 1;
                 continue;
             }
         };
@@ -94,6 +96,7 @@ fn main() {
                 eprintln!("skip {i}: unsatisfied {:?} iterations {} prio_solved {} prios {:?}", o.outcome.unsatisfied(), o.outcome.iterations(), o.outcome.priority_solved(), sys.reqs.iter().map(|r| format!("{} {:?}", r.priority(), r.constraint())).collect::<Vec<_>>());
                 eprintln!("   guesses {:?} final {:?}", sys.guesses, o.outcome.final_values());
             }
+            skipped_unsat += 1;
             continue;
         }
         let x = o.outcome.final_values().to_vec();
@@ -133,4 +136,6 @@ fn main() {
             x.iter().map(|v| format!("{v:e}")).collect::<Vec<_>>().join(", ")
         );
     }
+    println!("SKIPPED {{\"errors\": {skipped_err}, \"unsatisfied_or_slow\": {skipped_unsat}}}");
+    println!("DONE {n}");
 }
